@@ -252,7 +252,7 @@ def gen_lines(seed, count):
         dom = domains(mn)
         ops = {}
         for k in apimap.api_fields(mn):
-            d = dom[k]
+            d = dom[k] if k != 'csr' else dom[k][:0x800]   # documented CSR spelling range (>= 0x800 is EITHER, see C06)
             lo, hi = d[0], d[-1]
             step = d[1] - d[0] if len(d) > 1 else 1
             if rnd.randrange(3) == 0:
@@ -260,13 +260,17 @@ def gen_lines(seed, count):
             else:
                 v = d[rnd.randrange(len(d))]
             if k in ('rd', 'rs1', 'rs2') and not (rvref.fmt_of(mn) == 'CSR' and k == 'rs1' and mn.endswith('i')):
-                ops[k] = ir.Reg(v)
+                # one in ten registers is written through a register-alias constant (REG_n = xN, defined up front)
+                ops[k] = ir.Reg(v, alias='REG_%d' % v if rnd.randrange(10) == 0 else None)
             elif k in ('succ', 'pred', 'aq', 'rl') or (rvref.fmt_of(mn) == 'CSR' and k == 'rs1'):
                 ops[k] = v
             else:
                 ops[k] = ir.Lit(v)
         items.append(ir.Insn(mn, ops, baseoff=bool(rnd.randrange(2))))
     return items, rnd.randrange(1, 2 ** 32)
+
+
+ALIAS_PRELUDE = ''.join('REG_%d = x%d\n' % (i, i) for i in range(32))
 
 
 def insn_lines(count):
@@ -280,10 +284,23 @@ def judge_text(case, res):
     src, _ = ir.render(items, st_)
     res.evaluations += len(items)
     try:
-        out = bytes(asm.assemble(src))
+        out = bytes(asm.assemble(ALIAS_PRELUDE + src))
     except Exception as e:
-        # an in-range instruction refused through the text front end: find the line, leave acceptance to C06
-        res.count('text_refused')
+        # some line is refused (acceptance is C06's business): judge the lines one by one instead
+        res.count('text_batch_refused')
+        lines = src.splitlines()
+        for i, it in enumerate(items):
+            try:
+                o = bytes(asm.assemble(ALIAS_PRELUDE + lines[i] + '\n'))
+            except Exception:
+                res.count('text_line_refused:' + it.mn)
+                continue
+            f = {k: (v.n if isinstance(v, ir.Reg) else (v.value if isinstance(v, ir.Lit) else v)) for k, v in it.ops.items()}
+            exp = expected_word(it.mn, f)
+            if len(o) != 4 or struct.unpack('<I', o)[0] != exp:
+                raise env.CaseFailure('text:%s' % it.mn, 'line %r -> bytes %s; the specification gives 0x%08x' % (lines[i], o.hex(), exp),
+                                      {'kind': 'text', 'source': ALIAS_PRELUDE + lines[i] + '\n', 'line': lines[i]})
+            res.nt(env.chash(lines[i]))
         return
     if len(out) != 4 * len(items):
         raise env.CaseFailure('text:length', 'output has %d bytes for %d instructions' % (len(out), len(items)),
@@ -296,7 +313,7 @@ def judge_text(case, res):
             line = src.splitlines()[i]
             raise env.CaseFailure('text:%s' % it.mn, 'line %r -> bytes %s (little-endian 0x%08x, decodes to %r); the '
                                   'specification gives 0x%08x' % (line, out[4 * i:4 * i + 4].hex(), word, rvref.dec32(word), exp),
-                                  {'kind': 'text', 'source': line + '\n'})
+                                  {'kind': 'text', 'source': ALIAS_PRELUDE + line + '\n', 'line': line})
         res.nt(env.chash(src.splitlines()[i]))
     if res.evaluations % 4000 < len(items):
         res.sample({'text': src.splitlines()[:4]})
@@ -334,6 +351,10 @@ def run(tier):
     lines = 200
     per = max(1, n_text // lines // env.NPROC)
     chk.merge(env.run_shards(shard_text, [(per, lines, s) for s in range(env.NPROC)]))
+    c = chk.res.classes
+    refused_lines = sum(v for k, v in c.items() if k.startswith('text_line_refused'))
+    if refused_lines * 10 > n_text:
+        raise env.HarnessError('text front end vacuity: %d of %d generated in-range lines were refused' % (refused_lines, n_text))
     chk.exhaustive = tier == 'thorough'
     chk.extra['api_tuples'] = api_evals
     chk.extra['text_lines'] = chk.res.evaluations - api_evals
@@ -365,7 +386,7 @@ def replay(path):
         # single source line: compare with the expected word stored in the message is not possible without IR;
         # re-derive by decoding: the replay stores one line whose canonical tuple is re-parsed by rvref from text
         out = bytes(asm.assemble(case['source']))
-        why = None if False else _replay_text_line(case['source'], out)
+        why = _replay_text_line(case.get('line', case['source']), out)
     if why:
         print('VIOLATION property=%s replay=%s' % (PROP, path))
         print('  ' + why)
@@ -383,6 +404,7 @@ def _replay_text_line(line, out):
     regmap = {('x%d' % i): i for i in range(32)}
     regmap.update({n: i for i, n in enumerate(ir.ABI)})
     regmap['fp'] = 8
+    regmap.update({'REG_%d' % i: i for i in range(32)})
 
     def val(t):
         return regmap[t] if t in regmap else int(t, 0)
